@@ -15,6 +15,10 @@ import (
 
 var areas = map[string]func(c *gen.Ctx) error{}
 
+// rawCommands are sub-commands with their own argument handling (helper processes such as
+// wrapped peers); they receive os.Args[2:] and return the exit status.
+var rawCommands = map[string]func(args []string) int{}
+
 func main() {
 	if len(os.Args) < 2 {
 		var names []string
@@ -26,6 +30,9 @@ func main() {
 		os.Exit(2)
 	}
 	area := os.Args[1]
+	if rc, ok := rawCommands[area]; ok {
+		os.Exit(rc(os.Args[2:]))
+	}
 	fs := flag.NewFlagSet(area, flag.ExitOnError)
 	seed := fs.Uint64("seed", 1, "seed")
 	tier := fs.String("tier", "quick", "tier")
